@@ -24,8 +24,10 @@ class Domain:
         self.complaints = []   # (rule, message, term)
         self.datadep = []
 
+    origin = 'update'
+
     def complain(self, rule, msg, t):
-        self.complaints.append((rule, msg, tstr(t)[:120]))
+        self.complaints.append((rule, msg + ' [in %s]' % self.origin, tstr(t)[:120]))
 
 
 class Degree(Domain):
@@ -402,6 +404,7 @@ def analyse_view(F, view, dom_cls):
     for _ in range(8):
         dom.complaints = []
         dom.datadep = []
+        dom.origin = 'update'
         fed = {}
         ev = TypeEval(dom, F, view, m.up_vg, tau, fed)
         input_kids = set()
@@ -430,6 +433,7 @@ def analyse_view(F, view, dom_cls):
             break
         tau = new
     # output
+    dom.origin = 'last'
     evl = TypeEval(dom, F, view, m.last_vg, tau, fed)
     out = None
     for ex in m.last_exits:
